@@ -326,7 +326,7 @@ void World::finish(bool joined) {
   if (awaited) {
     if (fut_completions != 1) rt::fail("awaited future completed %d times", fut_completions);
     if (stop_after_completion && fut_outcome != kind)
-      rt::fail("stop was requested after the operation had completed, but the future delivered %s instead of the operation's %s", kind_name(fut_outcome), kind_name(kind));
+      rt::fail("late stop request changed the future's result (operation: %s, delivered: %s)", kind_name(kind), kind_name(fut_outcome));
     if (avail_at_await && fut_outcome != kind) rt::fail("result was available when the future was awaited but the future delivered %s", kind_name(fut_outcome));
   } else if (fut_completions != 0) rt::fail("future receiver completed although the future was never started");
 }
